@@ -31,3 +31,29 @@ PROPS["C06"] = {
             "with the coordinate-stepping spec; every enumerated case is distinct by construction",
     "assumptions": ["popcnt/tzcnt/lzcnt intrinsics behave as their mathematical definitions (modelled, compared on every lookup)"],
 }
+
+WALK_RULE = ("positions visited by (a) exhaustive descents to a fixed depth from 40 seed FENs (perft suite, en-passant pins, castling through attack, "
+             "promotions, double checks, locked positions), (b) random games with move-kind bias (castling / en passant / promotion / capture), nested take-backs, "
+             "deliberate shuffles that repeat positions, and continuation from a FEN reload, (c) the minimised corpus; one observation block per position "
+             "(full state dump, pseudo-legal list in generation order, legal list, check flags, attacked-square sets, from-scratch / reload keys, evaluation and its mirror / "
+             "swapped twins, periodic single-component perturbations). distinct_nontrivial = number of distinct positions by (placement, side, rights, ep file), counted by the driver")
+
+PROPS["C05"] = {
+    "module": "RCE.Props.C05",
+    "theorems": ["RCE.Props.C05.scratchKey_is_keyOfParts", "RCE.Props.C05.single_square", "RCE.Props.C05.single_turn",
+                 "RCE.Props.C05.single_ep", "RCE.Props.C05.single_right"],
+    "streams": {"quick": [dict(WALK_Q, args=WALK_Q["args"] + ["--perturb-every", 8])],
+                "thorough": [dict(WALK_T, args=WALK_T["args"] + ["--perturb-every", 4])]},
+    "rule": WALK_RULE + "; for C05 every explored key is bucketed by position identity (no two identities may share a key) and every perturbed from-scratch key must differ",
+    "assumptions": ["the full statement (all pairs of distinct positions) is false for any 64-bit key by counting and is not claimed; "
+                    "proved: every single-component difference changes the key, over the regenerated table"],
+}
+
+PROPS["C17"] = {
+    "module": "RCE.Props.C17",
+    "theorems": ["RCE.Props.C17.eval_mirror", "RCE.Props.C17.eval_swap", "RCE.Props.C17.eval_range",
+                 "RCE.Props.C17.saturation_breaks_antisymmetry"],
+    "streams": {"quick": [WALK_Q], "thorough": [WALK_T]},
+    "rule": WALK_RULE,
+    "assumptions": ["eval_swap needs per-side material <= 32767 cp (true of every reachable position; counter-example without it is a theorem)"],
+}
